@@ -74,6 +74,7 @@ type HTTPSpec struct {
 	HostHeader string   `json:"hostheader"`
 	UserAgent  string   `json:"useragent"`
 	Proxy      bool     `json:"proxy"`
+	Secure     bool     `json:"secure,omitempty"` // HTTPS: the server generates a certificate below <loot>/listener/<sanitised name>/
 	PType      string   `json:"ptype,omitempty"`
 	PHost      string   `json:"phost,omitempty"`
 	PPort      string   `json:"pport,omitempty"`
@@ -87,6 +88,7 @@ type LSpec struct {
 	Pipe     string    `json:"pipe,omitempty"`
 	Endpoint string    `json:"endpoint,omitempty"`
 	HTTP     *HTTPSpec `json:"http,omitempty"`
+	NC       string    `json:"nc,omitempty"` // name class the generator drew the name from (lname_test.go), for the evidence
 }
 
 type Op struct {
@@ -199,6 +201,9 @@ func httpInfo(l LSpec) map[string]any {
 		"Hosts": strings.Join(hs.Hosts, ", "), "Headers": strings.Join(hs.Headers, ", "), "Uris": strings.Join(hs.Uris, ", "),
 		"HostRotation": hs.Rotation, "PortConn": hs.PortConn, "HostHeader": hs.HostHeader, "UserAgent": hs.UserAgent,
 		"Secure": "false", "Proxy Enabled": "false",
+	}
+	if hs.Secure {
+		info["Secure"] = "true"
 	}
 	if hs.Proxy {
 		info["Proxy Enabled"] = "true"
@@ -393,6 +398,10 @@ func (r *runState) apply(op Op) bool {
 func (r *runState) finish() {
 	for _, h := range r.https {
 		deadline := time.Now().Add(3 * time.Second)
+		if h.Config.Secure {
+			// HTTP.Start() sets Server before it returns; nil = the certificate could not be written, nothing runs
+			deadline = time.Now()
+		}
 		for h.Server == nil && time.Now().Before(deadline) {
 			time.Sleep(200 * time.Microsecond)
 		}
